@@ -147,7 +147,7 @@ Qed.
 (* ---------- args.json / options.json ---------- *)
 Lemma finish_spec rc ser ae oe hv :
   exists pre post,
-    finish_execution rc ser ae oe hv = pre ++ post /\
+    finish_execution rc ser ae oe hv = [CloseLog; CloseLog] ++ pre ++ post /\
     (forall e, In e pre -> e = WriteArgsJson \/ e = WriteOptionsJson) /\
     (In WriteArgsJson pre <-> ser = true /\ ae = false) /\
     (In WriteOptionsJson pre <-> ser = true /\ oe = false) /\
